@@ -59,6 +59,11 @@ namespace trompeloeil {
     noexcept;
 
     void
+    add_retired(
+      sequence_matcher *m)
+    noexcept;
+
+    void
     validate_match(
       severity s,
       sequence_matcher const *matcher,
@@ -69,6 +74,7 @@ namespace trompeloeil {
 
   private:
     list<sequence_matcher> matchers{};
+    list<sequence_matcher> retired_matchers{};
   };
 
   class sequence
@@ -95,10 +101,10 @@ namespace trompeloeil {
       , exp_name(exp)
       , exp_loc(loc)
       , sequence_handler(handler)
-      , seq(*i.second)
+      , seq(&*i.second)
     {
       auto lock = get_lock();
-      seq.add_last(this);
+      seq->add_last(this);
     }
 
     sequence_matcher(const sequence_matcher&) = delete;
@@ -112,7 +118,7 @@ namespace trompeloeil {
       location loc)
     const
     {
-      seq.validate_match(s, this, seq_name, match_name, loc);
+      if (seq) seq->validate_match(s, this, seq_name, match_name, loc);
     }
 
     unsigned
@@ -120,7 +126,7 @@ namespace trompeloeil {
     const
     noexcept
     {
-      return seq.cost(this);
+      return seq ? seq->cost(this) : 0U;
     }
 
     bool
@@ -138,13 +144,22 @@ namespace trompeloeil {
     noexcept
     {
       this->unlink();
+      if (seq) seq->add_retired(this);
+    }
+
+    void
+    detach()
+    noexcept
+    {
+      this->unlink();
+      seq = nullptr;
     }
 
     void
     retire_predecessors()
     noexcept
     {
-      seq.retire_until(this);
+      if (seq) seq->retire_until(this);
     }
 
     void
@@ -166,7 +181,7 @@ namespace trompeloeil {
     char const *exp_name;
     location    exp_loc;
     const sequence_handler_base& sequence_handler;
-    sequence_type& seq;
+    sequence_type* seq;
   };
 
   inline
@@ -299,7 +314,11 @@ namespace trompeloeil {
       }
       os << "\n  missing ";
       m->print_expectation(os);
-      m->unlink();
+      m->detach();
+    }
+    while (!retired_matchers.empty())
+    {
+      retired_matchers.begin()->detach();
     }
     if (touched)
     {
@@ -315,6 +334,15 @@ namespace trompeloeil {
   noexcept
   {
     matchers.push_back(m);
+  }
+
+  inline
+  void
+  sequence_type::add_retired(
+    sequence_matcher *m)
+  noexcept
+  {
+    retired_matchers.push_back(m);
   }
 
   inline
